@@ -8,7 +8,13 @@ Extracted, fail closed on any other shape:
     wavelength coordinate), whether negative values are clipped, and that the store is the last statement;
   * that every container's geometry is (geo.row, geo.col);
   * what each Detector bucket setter does (`self.X.array = obj.array` validating /
-    `self.X._array = obj._array` raw / no setter);
+    `self.X._array = obj._array` raw / the photon setter's dispatch on `obj._array` to `empty()` /
+    `.array` / `.array_3d` / no setter);
+  * the shape of Photon.__iadd__ and Photon.__add__: the two isinstance guards, then either the raw tail
+    (`self._array += other` / `self._array = other`) or the tail through the setters; ArrayBase.__iadd__ /
+    __add__ must be `self.array += other` / `self.array = other`;
+  * the shape of ArrayBase.__eq__ (arrays compared only when the left side is initialised / None-ness compared
+    on both sides first) and whether Photon.__eq__ compares `(_num_rows, _num_cols)`;
   * numpy's in-place output-casting rule `dst += src` over the dtype enum, read from the installed numpy
     (can_cast(result_type(dst, src), dst, 'same_kind'), cross-checked by executing the addition).
 """
@@ -162,6 +168,108 @@ def is_warn(st):
     return isinstance(st, ast.Expr) and isinstance(st.value, ast.Call) and ast.unparse(st.value.func) == "warnings.warn"
 
 
+class _StripRaise(ast.NodeTransformer):
+    """raise X("message") -> raise X()   (messages are not property-relevant)"""
+
+    def visit_Raise(self, node):
+        if isinstance(node.exc, ast.Call):
+            node = ast.Raise(exc=ast.Call(func=node.exc.func, args=[], keywords=[]), cause=None)
+        return node
+
+
+def shape_of(fn: ast.FunctionDef, rename: dict | None = None) -> list[str]:
+    """Canonical text of every statement of a small method: docstring, imports and exception messages removed,
+    quotes normalised, parameter names renamed."""
+    out = []
+    for st in body_no_doc(fn):
+        if isinstance(st, (ast.Import, ast.ImportFrom)):
+            continue
+        st = _StripRaise().visit(ast.parse(ast.unparse(st)).body[0])
+        if rename:
+            for n in ast.walk(st):
+                if isinstance(n, ast.Name) and n.id in rename:
+                    n.id = rename[n.id]
+        out.append(norm(st))
+    return out
+
+
+def _canon(src: str) -> str:
+    return norm(_StripRaise().visit(ast.parse(src).body[0]))
+
+
+PH_G1 = _canon("if isinstance(other, np.ndarray) and isinstance(self._array, xr.DataArray):\n    raise TypeError()")
+PH_G2 = _canon("if isinstance(other, xr.DataArray) and isinstance(self._array, np.ndarray):\n    raise TypeError()")
+PH_RAW = {_canon("if self._array is not None:\n    self._array += other\nelse:\n    self._array = other"),
+          _canon("if self._array is None:\n    self._array = other\nelse:\n    self._array += other")}
+PH_SET = {_canon("if self._array is None:\n    if isinstance(other, xr.DataArray):\n        self.array_3d = other\n"
+                 "    else:\n        self.array = other\nelif isinstance(self._array, xr.DataArray):\n"
+                 "    self.array_3d += other\nelse:\n    self.array += other"),
+          _canon("if self._array is None:\n    if isinstance(other, xr.DataArray):\n        self.array_3d = other\n"
+                 "    else:\n        self.array = other\nelif isinstance(self._array, np.ndarray):\n"
+                 "    self.array += other\nelse:\n    self.array_3d += other")}
+BASE_IADD = {_canon("if self._array is not None:\n    self.array += other\nelse:\n    self.array = other"),
+             _canon("if self._array is None:\n    self.array = other\nelse:\n    self.array += other")}
+BASE_EQ_LEFT = [[_canon("is_true = type(self) is type(other) and self.shape == other.shape"),
+                 _canon("if is_true and self._array is not None:\n    is_true = np.array_equal(self.array, other.array)"),
+                 _canon("return is_true")]]
+_EQ_HEAD = [_canon("if not (type(self) is type(other) and self.shape == other.shape):\n    return False"),
+            _canon("if type(self) is not type(other) or self.shape != other.shape:\n    return False")]
+_EQ_NONE = [_canon("if self._array is None or other._array is None:\n    return self._array is None and other._array is None"),
+            _canon("if self._array is None or other._array is None:\n    return self._array is other._array")]
+_EQ_VAL = [_canon("return np.array_equal(self._array, other._array)"), _canon("return np.array_equal(self.array, other.array)"),
+           _canon("return bool(np.array_equal(self._array, other._array))")]
+BASE_EQ_BOTH = [[h, n, v] for h in _EQ_HEAD for n in _EQ_NONE for v in _EQ_VAL]
+PH_EQ_TYPE = _canon("if type(self) is not type(other):\n    return False")
+PH_EQ_GEOM = {_canon("if (self._num_rows, self._num_cols) != (other._num_rows, other._num_cols):\n    return False"),
+              _canon("if self._num_rows != other._num_rows or self._num_cols != other._num_cols:\n    return False")}
+PH_EQ_REST = [_canon("if self._array is other._array is None:\n    return True"),
+              _canon("if isinstance(self._array, np.ndarray):\n    return np.array_equal(self._array, other._array)"),
+              _canon("if isinstance(self._array, xr.DataArray):\n    return self._array.equals(other._array)"),
+              _canon("return False")]
+DET_PH_SAME = _canon("if obj is self._photon:\n    return")
+DET_PH_DISPATCH = {_canon("if obj._array is None:\n    self.photon.empty()\nelif isinstance(obj._array, np.ndarray):\n"
+                          "    self.photon.array = obj.array\nelse:\n    self.photon.array_3d = obj.array_3d")}
+
+
+def photon_iadd_kind(fn: ast.FunctionDef) -> str:
+    if [a.arg for a in fn.args.args] != ["self", "other"]:
+        fail(fn, f"Photon.{fn.name} signature")
+    b = shape_of(fn)
+    if len(b) != 4 or sorted(b[:2]) != sorted([PH_G1, PH_G2]) or b[3] != "return self":
+        fail(fn, f"Photon.{fn.name}: expected the two isinstance guards, one if/else tail and `return self`")
+    if b[2] in PH_RAW:
+        return "IAddRaw"
+    if b[2] in PH_SET:
+        return "IAddSetters"
+    fail(fn, f"Photon.{fn.name}: tail shape not accepted")
+
+
+def base_eq_kind(fn: ast.FunctionDef) -> str:
+    if [a.arg for a in fn.args.args] != ["self", "other"]:
+        fail(fn, "ArrayBase.__eq__ signature")
+    b = shape_of(fn)
+    if b in BASE_EQ_LEFT:
+        return "EqLeftOnly"
+    if b in BASE_EQ_BOTH:
+        return "EqBothNone"
+    fail(fn, "ArrayBase.__eq__: shape not accepted")
+
+
+def photon_eq_geom(fn: ast.FunctionDef) -> bool:
+    if [a.arg for a in fn.args.args] != ["self", "other"]:
+        fail(fn, "Photon.__eq__ signature")
+    b = shape_of(fn)
+    if not b or b[0] != PH_EQ_TYPE:
+        fail(fn, "Photon.__eq__: must start with the type test")
+    rest, geom = b[1:], False
+    if rest and rest[0] in PH_EQ_GEOM:
+        rest, geom = rest[1:], True
+    if rest != PH_EQ_REST:
+        fail(fn, "Photon.__eq__: shape not accepted")
+    return geom
+
+
+
 def numpy_iadd_table():
     import warnings
 
@@ -235,6 +343,14 @@ def extract(repo: Path) -> dict:
     if "self._shape = shape" not in ib or not any(s.startswith("self._array") and s.endswith("= None") for s in ib):
         fail(init, "ArrayBase.__init__ must set `self._array = None` and `self._shape = shape`")
 
+    for nm in ("__iadd__", "__add__"):
+        fn = find_func(tree, nm, "ArrayBase")
+        b = shape_of(fn)
+        if [a.arg for a in fn.args.args] != ["self", "other"] or len(b) != 2 or b[0] not in BASE_IADD or b[1] != "return self":
+            fail(fn, f"ArrayBase.{nm} must be `self.array += other` on an initialised / `self.array = other` on an empty "
+                     "container, then `return self`")
+    info["base_eq"] = base_eq_kind(find_func(tree, "__eq__", "ArrayBase"))
+
     # ---- subclasses
     tls = {}
     for cname, (rel, _) in CLASSES.items():
@@ -298,6 +414,10 @@ def extract(repo: Path) -> dict:
     check_order(s3, o3, ["type", "dtype", "ndim", "dims", "shape", "coord", "clip"])
     info["q"], info["q_clip"] = f3, clip3
 
+    info["ph_iadd"] = photon_iadd_kind(find_func(t, "__iadd__", "Photon"))
+    info["ph_add"] = photon_iadd_kind(find_func(t, "__add__", "Photon"))
+    info["ph_eq_geom"] = photon_eq_geom(find_func(t, "__eq__", "Photon"))
+
     # the alias property `array_2d` must delegate to `array` (the driver uses both entry points, the model one)
     g2 = [n for n in ph.body if isinstance(n, ast.FunctionDef) and n.name == "array_2d"
           and any(ast.unparse(d) == "property" for d in n.decorator_list)]
@@ -323,6 +443,14 @@ def extract(repo: Path) -> dict:
             setters[bucket] = "SetterValidating"
         elif b == [f"self.{bucket}._array = {arg}._array"]:
             setters[bucket] = "SetterRaw"
+        elif bucket == "photon" and arg is not None:
+            sh = shape_of(fn, rename={arg: "obj"})
+            if sh and sh[0] == DET_PH_SAME:          # `detector.photon += x` hands the same object back
+                sh = sh[1:]
+            if len(sh) == 1 and sh[0] in DET_PH_DISPATCH:
+                setters[bucket] = "SetterDispatch"
+            else:
+                fail(fn, "Detector.photon setter shape not accepted")
         else:
             fail(fn, f"Detector.{bucket} setter shape not accepted")
     t = parse(repo, "pyxel/detectors/mkid/mkid.py")
@@ -374,7 +502,9 @@ def render(info: dict, iadd_rows) -> str:
             f"     q_type := {g(info['q'], 'type')}; q_dtype := {g(info['q'], 'dtype')}; q_ndim := {g(info['q'], 'ndim')};\n"
             f"     q_dims := {g(info['q'], 'dims')}; q_shape := {g(info['q'], 'shape')}; q_coord := {g(info['q'], 'coord')};\n"
             f"     q_clip := {'true' if info['q_clip'] else 'false'};\n"
-            "     det_setter := src_det_setter |}.\n")
+            "     det_setter := src_det_setter;\n"
+            f"     ph_iadd := {info['ph_iadd']}; ph_add := {info['ph_add']};\n"
+            f"     base_eq := {info['base_eq']}; ph_eq_geom := {'true' if info['ph_eq_geom'] else 'false'} |}}.\n")
 
 
 def _npver() -> str:
@@ -395,8 +525,9 @@ _FALLBACK_INFO = {
     "p": {"type": "TypeError", "dtype": "ValueError", "ndim": "ValueError", "shape": "ValueError"}, "p_clip": True,
     "q": {"type": "TypeError", "dtype": "ValueError", "ndim": "ValueError", "dims": "ValueError",
           "shape": "ValueError", "coord": "ValueError"}, "q_clip": True,
-    "setters": {"photon": "SetterRaw", "pixel": "SetterValidating", "signal": "SetterValidating",
+    "setters": {"photon": "SetterDispatch", "pixel": "SetterValidating", "signal": "SetterValidating",
                 "image": "SetterValidating", "phase": "SetterNone"},
+    "ph_iadd": "IAddSetters", "ph_add": "IAddSetters", "base_eq": "EqBothNone", "ph_eq_geom": True,
 }
 
 
